@@ -51,6 +51,7 @@ ASSUMPTIONS = ['standard error definition sqrt(p(1-p)/(n+1)) from the '
                'property statement']
 REQUIRED_COUNTERS = ['partitions_analysed', 'rows_compared',
                      'sector_rows_compared', 'merge_results_invocations',
+                     'merge_passes_before_the_final_merge',
                      'zip_containers', 'gzip_files',
                      'metamorphic_pairs_compared',
                      'single_qubit_entries_compared',
@@ -278,14 +279,38 @@ def write_partition(rng, keys, files, root, out):
                 json.dump(data, f)
             srcs.append(p)
         merged = os.path.join(root, 'merged-results.json.gz')
-        with contextlib.redirect_stdout(io.StringIO()):
-            res = CliRunner().invoke(cli.merge_results,
-                                     srcs + ['-o', merged])
-        if res.exit_code != 0 or not os.path.exists(merged):
-            out.violation('merge-results/failed',
-                          f'merge-results exit {res.exit_code}: '
-                          f'{res.output[-200:]} {res.exception}', {})
-        out.count('merge_results_invocations')
+
+        def merge(inputs, target):
+            with contextlib.redirect_stdout(io.StringIO()):
+                res = CliRunner().invoke(cli.merge_results,
+                                         list(inputs) + ['-o', target])
+            if res.exit_code != 0 or not os.path.exists(target):
+                out.violation('merge-results/failed',
+                              f'merge-results exit {res.exit_code}: '
+                              f'{res.output[-200:]} {res.exception}', {})
+            out.count('merge_results_invocations')
+        # per-job merges are merged again (and again): each pass of the real
+        # command nests the lists one level deeper
+        level = 0
+        passes = int(rng.choice([0, 0, 1, 2]))
+        while passes and len(srcs) >= 1:
+            level += 1
+            nxt = []
+            i = 0
+            while i < len(srcs):
+                g = int(rng.integers(1, 3))
+                tgt = os.path.join(srcdir, f'L{level}-{i}.json'
+                                   + ('.gz' if rng.random() < 0.5 else ''))
+                if g == 1 and rng.random() < 0.4 and len(srcs) > 1:
+                    nxt.append(srcs[i])     # stays raw: mixed depths
+                else:
+                    merge(srcs[i:i + g], tgt)
+                    nxt.append(tgt)
+                i += g
+            srcs = nxt
+            passes -= 1
+            out.count('merge_passes_before_the_final_merge')
+        merge(srcs, merged)
         shutil.rmtree(srcdir, ignore_errors=True)
         paths.append(merged)
     rng.shuffle(paths)
